@@ -41,6 +41,15 @@ fn dispatch(mode: &str, line: &str) -> String {
             t[2].parse().expect("u128"),
             t[3] == "1",
         )),
+        // <kind> <count> <picos> <binary> <precision|-> <width|->
+        "thrw" => ok(v::display_throughput_with(
+            t[0].parse().expect("kind"),
+            t[1].parse().expect("u64"),
+            t[2].parse().expect("u128"),
+            t[3] == "1",
+            opt(t[4]),
+            opt(t[5]),
+        )),
         // <api> <flag> <env>: a real run of this binary as a child process (see e2e.rs)
         "e2e" => e2e::run_case(line),
         _ => panic!("unknown mode {mode}"),
